@@ -7,6 +7,7 @@ CONSTANTS
   DeepDepth = 2
   HierDepth = 3
   XDepth = 2
+  Wide = TRUE
   EmitCases = TRUE
 INIT Init
 NEXT Next
